@@ -63,7 +63,7 @@ def _draw(case):
         particles=(12, 32) if quick else (12, 64),
         kernel_steps=(1, 2),
         checkpoint_modes=("path", "auto", "callback", "none"),
-        hard=bool(case["run_index"] % 2), offset_prob=0.15,
+        hard=bool(case["run_index"] % 2), offset_prob=0.15, reuse_prob=0.3,
     )
 
 
